@@ -15,7 +15,8 @@ reserved keys) is the outcome `panic`.  The taxonomy (`--with-taxon-at-rank`, `-
 `--taxonomic-rank`, `--scientific-name`), `--aho-corasick` and `--pattern` workers are modelled with
 the verdicts of obitax / ahocorasick / obiapat as oracle parameters (what the library found is data,
 which attributes are then set, under which names and where in the chain is the model).  `--add-lca-in`
-is not modelled.
+(`obitax.AddLCAWorker`) is modelled the same way: the lowest common ancestor found by the taxonomy is
+data, the three slot names derived from the option value are the model.
 -/
 namespace ObiVerif.Annotate
 open ObiVerif.Grep
@@ -84,6 +85,16 @@ structure Hit where
   nerr : Int
   deriving DecidableEq, Repr, Inhabited
 
+/-- what `Taxonomy.LCA(sequence, threshold)` finds: the taxid and scientific name of the ancestor, the
+rounded error `math.Round((1-rans)*1000)/1000` (a float64), and the value of the `merged_taxid`
+statistics when `StatsOn` had to create them on the record (`none` = they were there already) -/
+structure LcaVerdict where
+  stat : Option AVal
+  taxid : Int
+  name : String
+  err : AVal
+  deriving DecidableEq, Repr, Inhabited
+
 structure Oracles where
   /-- `obiseq.Expression(e)(record)`; `none` = evaluation error -/
   evalExpr : String → Rec → Option AVal
@@ -101,6 +112,9 @@ structure Oracles where
   /-- `pat.BestMatch(seq, 0, len)` of the pattern (`true`) or of its reverse complement (`false`) compiled
   with the given error count / indel flag, filtered by `matched && start >= 0 && end <= len` -/
   bestMatch : String → Int → Bool → Bool → Rec → Option Hit := fun _ _ _ _ _ => none
+  /-- `taxonomy.LCA(sequence, 1 - lcaError)` for the `--lca-error` value given (as text; `""` = absent);
+  `none` = `log.Panicf` (a taxid of the record is not in the taxonomy) -/
+  lca : String → Rec → Option LcaVerdict := fun _ _ => none
 
 /-- `ClearAllAttributesWorker` -/
 def clearAll : Edit := fun r => .ok { r with attrs := [] }
@@ -211,8 +225,9 @@ def patternSlots (name : String) : String × String × String × String :=
   (slot, name ++ "_match", name ++ "_error", name ++ "_location")
 
 /-- `MatchPatternWorker`: the direct pattern first, its reverse complement when the direct one does
-not match (whatever `--only-forward`: the `bothStrand` argument is not used by the worker) -/
-def matchPatternAttrs (O : Oracles) (pattern name : String) (errmax : Int) (indel : Bool) (r : Rec) :
+not match and both strands are searched (repaired: the unrepaired worker ignored its `bothStrand`
+argument, so that `--only-forward` had no effect on `obiannotate --pattern`) -/
+def matchPatternAttrs (O : Oracles) (pattern name : String) (errmax : Int) (indel : Bool) (bothStrand : Bool) (r : Rec) :
     List (String × AVal) :=
   let s := patternSlots name
   match O.bestMatch pattern errmax indel true r with
@@ -220,16 +235,56 @@ def matchPatternAttrs (O : Oracles) (pattern name : String) (errmax : Int) (inde
     [(s.1, .str pattern), (s.2.1, .str (asString ((r.seq.drop h.start).take (h.stop - h.start)))),
      (s.2.2.1, .int h.nerr), (s.2.2.2, .str (toString (h.start + 1) ++ ".." ++ toString h.stop))]
   | none =>
-    match O.bestMatch pattern errmax indel false r with
-    | some h =>
-      [(s.1, .str pattern),
-       (s.2.1, .str (asString (((r.seq.drop h.start).take (h.stop - h.start)).reverse.map compl))),
-       (s.2.2.1, .int h.nerr),
-       (s.2.2.2, .str ("complement(" ++ toString (h.start + 1) ++ ".." ++ toString h.stop ++ ")"))]
-    | none => []
+    if bothStrand then
+      match O.bestMatch pattern errmax indel false r with
+      | some h =>
+        [(s.1, .str pattern),
+         (s.2.1, .str (asString (((r.seq.drop h.start).take (h.stop - h.start)).reverse.map compl))),
+         (s.2.2.1, .int h.nerr),
+         (s.2.2.2, .str ("complement(" ++ toString (h.start + 1) ++ ".." ++ toString h.stop ++ ")"))]
+      | none => []
+    else []
 
-def matchPattern (O : Oracles) (pattern name : String) (errmax : Int) (indel : Bool) : Edit := fun r =>
-  setAttrs (matchPatternAttrs O pattern name errmax indel r) r
+def matchPattern (O : Oracles) (pattern name : String) (errmax : Int) (indel : Bool) (bothStrand : Bool) : Edit := fun r =>
+  setAttrs (matchPatternAttrs O pattern name errmax indel bothStrand r) r
+
+/-! ### `--add-lca-in` (`obitax.AddLCAWorker`) -/
+
+def taxidL : List Char := ['t', 'a', 'x', 'i', 'd']
+def errorL : List Char := ['e', 'r', 'r', 'o', 'r']
+def nameL : List Char := ['n', 'a', 'm', 'e']
+
+/-- `strings.Replace(s, old, new, 1)` (`old` not empty): the first occurrence is replaced -/
+def replaceFirstL (pat rep : List Char) : List Char → List Char
+  | [] => []
+  | c :: t => if pat.isPrefixOf (c :: t) = true then rep ++ (c :: t).drop pat.length
+              else c :: replaceFirstL pat rep t
+
+/-- the three slot names of `AddLCAWorker(taxonomy, slot_name, threshold)`: taxid, name, error -/
+def lcaSlotsL (slot : List Char) : List Char × List Char × List Char :=
+  let s := if taxidL.isSuffixOf slot = true then slot else slot ++ '_' :: taxidL
+  let e := replaceFirstL taxidL errorL s
+  let e := if e = errorL then ['l', 'c', 'a', '_'] ++ errorL else e
+  let n := replaceFirstL taxidL nameL s
+  let n := if n = nameL then ['s', 'c', 'i', 'e', 'n', 't', 'i', 'f', 'i', 'c', '_'] ++ nameL else n
+  (s, n, e)
+
+def lcaSlots (slot : String) : String × String × String :=
+  let x := lcaSlotsL slot.toList
+  (String.ofList x.1, String.ofList x.2.1, String.ofList x.2.2)
+
+/-- what `AddLCAWorker` writes: the `merged_taxid` statistics when `StatsOn` creates them (first, inside
+`Taxonomy.LCA`), then the taxid, the scientific name and the error of the ancestor -/
+def lcaAttrs (slot : String) (v : LcaVerdict) : List (String × AVal) :=
+  (match v.stat with
+   | some st => [("merged_taxid", st)]
+   | none => []) ++
+  [((lcaSlots slot).1, .int v.taxid), ((lcaSlots slot).2.1, .str v.name), ((lcaSlots slot).2.2, v.err)]
+
+def addLCA (O : Oracles) (slot lcaError : String) : Edit := fun r =>
+  match O.lca lcaError r with
+  | none => .panic
+  | some v => setAttrs (lcaAttrs slot v) r
 
 /-- the option globals of `obiannotate/options.go` after parsing (modelled subset) -/
 structure AnnotOpts where
@@ -255,6 +310,11 @@ structure AnnotOpts where
   /-- `obigrep.CLIPatternError()`, `CLIPatternInDels()` (options shared with obigrep) -/
   patternError : Int := 0
   patternIndel : Bool := false
+  /-- `obigrep.CLIPatternBothStrand()` = not `--only-forward` -/
+  patternBothStrand : Bool := true
+  /-- `--add-lca-in` (`""` = absent) and the text given to `--lca-error` (`""` = absent) -/
+  lcaSlot : String := ""
+  lcaError : String := ""
   deriving Inhabited
 
 /-- the attribute names the library-driven workers may set, from the options alone -/
@@ -263,6 +323,8 @@ def libraryKeys (o : AnnotOpts) : List String :=
   (if o.taxonomicPath then ["taxonomic_path"] else []) ++
   (if o.withRank then ["taxonomic_rank"] else []) ++
   (if o.withScientificName then ["scienctific_name"] else []) ++
+  (if o.lcaSlot ≠ "" then
+    ["merged_taxid", (lcaSlots o.lcaSlot).1, (lcaSlots o.lcaSlot).2.1, (lcaSlots o.lcaSlot).2.2] else []) ++
   (if o.ahoCorasick then ["aho_corasick", "aho_corasick_Fwd", "aho_corasick_Rev"] else []) ++
   (if o.pattern ≠ "" then
     [(patternSlots o.patternName).1, (patternSlots o.patternName).2.1, (patternSlots o.patternName).2.2.1,
@@ -280,11 +342,12 @@ def requestedEdits (O : Oracles) (o : AnnotOpts) : List Edit :=
   (if o.taxonomicPath then [setFromTaxonomy "taxonomic_path" O.taxPath] else []) ++
   (if o.withRank then [setFromTaxonomy "taxonomic_rank" O.taxRank] else []) ++
   (if o.withScientificName then [setFromTaxonomy "scienctific_name" O.sciName] else []) ++
+  (if o.lcaSlot ≠ "" then [addLCA O o.lcaSlot o.lcaError] else []) ++
   (if o.setSeqLength then [addSeqLength] else []) ++
   (if o.evalAttribute ≠ [] then [evalAttributes O o.evalAttribute] else []) ++
   (if o.ahoCorasick then [ahoCorasick O] else []) ++
   (if o.cut.1 ≠ 0 ∧ o.cut.2 ≠ 0 then [cutSequence o.cut.1 o.cut.2] else []) ++
-  (if o.pattern ≠ "" then [matchPattern O o.pattern o.patternName o.patternError o.patternIndel] else [])
+  (if o.pattern ≠ "" then [matchPattern O o.pattern o.patternName o.patternError o.patternIndel o.patternBothStrand] else [])
 
 /-- the chained worker applied to one record -/
 def annotate (O : Oracles) (o : AnnotOpts) : Edit := applyAll (requestedEdits O o)
